@@ -71,15 +71,18 @@ Fixpoint insert_loop (fuel : nat) (h : ptrie) (node g p t q : Z) (dir last : boo
       insert_loop f h2 node p q1 (if g =? 0 then t else g) (child h2 q1 dir') dir' dir
   end.
 
-Definition tree_insert (t : tree) (node : Z) (k : Z) : tree :=
+(* the loops of the C++ have no fuel; `fuel` bounds the number of iterations of the model's loops (one level per iteration):
+   the theorems hold for every fuel above twice the height of the tree, the executable model uses 200 *)
+Definition tree_insert_f (fuel : nat) (t : tree) (node : Z) (k : Z) : tree :=
   let h0 := hset (heap t) node (mktn 0 0 false k) in
   if root t =? 0 then mktree h0 node
   else
     let h1 := hset h0 HEAD (mktn 0 (root t) false 0) in
     let h2 := set_red h1 node true in
-    let h3 := insert_loop 200 h2 node 0 0 HEAD (root t) false false in
+    let h3 := insert_loop fuel h2 node 0 0 HEAD (root t) false false in
     let r := child h3 HEAD true in
     mktree (set_red h3 r false) r.
+Definition tree_insert (t : tree) (node : Z) (k : Z) : tree := tree_insert_f 200 t node k.
 
 (* ---- remove *)
 Fixpoint remove_loop (fuel : nat) (h : ptrie) (node g p q f gf : Z) (dir : bool) : ptrie * (Z * Z * Z * Z * Z) :=
@@ -127,16 +130,17 @@ Fixpoint relink_loop (fuel : nat) (h : ptrie) (node n q f : Z) (dir : bool) : pt
   end.
 
 (* remove(node): node must be in the tree *)
-Definition tree_remove (t : tree) (node : Z) : tree :=
+Definition tree_remove_f (fuel : nat) (t : tree) (node : Z) : tree :=
   let h0 := hset (heap t) HEAD (mktn 0 (root t) false 0) in
-  let '(h1, (g, p, q, f, gf)) := remove_loop 200 h0 node 0 0 HEAD 0 0 true in
+  let '(h1, (g, p, q, f, gf)) := remove_loop fuel h0 node 0 0 HEAD 0 0 true in
   let h2 := set_child h1 p (child h1 p true =? q) (child h1 q (child h1 q false =? 0)) in
   let h3 :=
     if f =? q then h2
     else let n := if gf =? 0 then HEAD else gf in
-         relink_loop 200 h2 node n q f (if n =? HEAD then true else key h2 n <? key h2 node) in
+         relink_loop fuel h2 node n q f (if n =? HEAD then true else key h2 n <? key h2 node) in
   let r := child h3 HEAD true in
   mktree (if r =? 0 then h3 else set_red h3 r false) r.
+Definition tree_remove (t : tree) (node : Z) : tree := tree_remove_f 200 t node.
 
 (* get(key): id of the node or 0 *)
 Fixpoint get_loop (fuel : nat) (h : ptrie) (n k : Z) : Z :=
